@@ -1,0 +1,159 @@
+//go:build verif
+
+// Contracts for the database handle: header validation per transaction, page cache, schema cache
+// (package db). Comments only. See /verif/DESIGN.md sections 3.4, C08, C15.
+
+package db
+
+// Ghost state:
+//   cc_now     the change counter of the database file during the current read transaction
+//              (SQLite increments it on every commit in rollback-journal mode)
+//   hdr_valid  parseHeader has accepted the header bytes read in this call of resolveDirty
+//@ ghost cc_now (_ BitVec 32)
+//@ ghost hdr_valid bool
+// Lock model (DESIGN 3.4): what this handle holds on the database file, and the lock state of another
+// SQLite connection (0 UNLOCKED, 1 SHARED, 2 RESERVED, 3 PENDING, 4 EXCLUSIVE); other_shared: another
+// handle of this process holds SHARED on the same file.
+//@ ghost lk_shared bool
+//@ ghost lk_pending bool
+//@ ghost peer_state bv64
+//@ ghost other_shared bool
+
+// Tokens: page_of(buf, n, cc): buf holds page n of the file as of change counter cc (from the pager);
+// decoded_from(node, buf): node is newBtree's result for buf; repr(node, n, cc): node is the decode
+// of page n as of change counter cc.
+//@ smt dbtokens
+//@ (declare-fun page_of (Slice (_ BitVec 64) (_ BitVec 32)) Bool)
+//@ (declare-fun decoded_from (Iface Slice) Bool)
+//@ (declare-fun repr (Iface (_ BitVec 64) (_ BitVec 32)) Bool)
+//@ (assert (forall ((node Iface) (buf Slice) (n (_ BitVec 64)) (cc (_ BitVec 32))) (! (=> (and (page_of buf n cc) (decoded_from node buf)) (repr node n cc)) :pattern ((page_of buf n cc) (decoded_from node buf)))))
+
+// Every Database handed out by OpenFile has a pager, a page cache and a validated header.
+//@ type-invariant db.Database = self.l != nil && self.btreeCache != nil && self.btreeCache.elem != nil && self.header != nil && legal_ps(self.header.PageSize)
+//@ + && (forall q int :: has(self.btreeCache.elem, q) ==> repr(self.btreeCache.elem[q], q, self.header.ChangeCounter))
+//@ + && (!self.dirty ==> self.header.ChangeCounter == cc_now)
+
+//@ type-invariant db.Table = self.db != nil
+//@ type-invariant db.Index = self.db != nil
+
+//@ iface db.pager.page
+//@   props C08 C15 C05 C12
+//@   opt params=self n pagesize
+//@   pure
+//@   trusted-ensures [buffer] err == nil ==> len(r0) == pagesize && fresh(r0) && page_of(r0, n, cc_now)
+//@   trusted-ensures [counter] err == nil && n == 1 && pagesize >= 100 ==> be32(mem(r0), off(r0) + 24) == cc_now
+
+//@ iface db.pager.CheckReservedLock
+//@   props C07 C09
+//@   opt params=self
+//@   pure
+//@   trusted-ensures [probe] err == nil ==> (r0 <==> peer_state >= 2)
+
+// RLock: SHARED is held afterwards iff it succeeded; it fails while another connection is in PENDING
+// or EXCLUSIVE. A new read transaction may see a new change counter.
+//@ iface db.pager.RLock
+//@   props C06 C07 C08
+//@   opt params=self
+//@   modifies lk_shared lk_pending cc_now db.filePager.readLock alloc
+//@   trusted-ensures err == nil ==> lk_shared && !lk_pending
+//@   trusted-ensures err != nil ==> lk_shared == old(lk_shared) && !lk_pending
+//@   trusted-ensures peer_state >= 3 ==> err != nil
+
+//@ iface db.pager.RUnlock
+//@   props C06
+//@   opt params=self
+//@   modifies lk_shared db.filePager.readLock
+//@   trusted-ensures err == nil ==> !lk_shared
+
+//@ iface db.pager.Close
+//@   opt params=self
+//@   modifies * lk_shared lk_pending
+
+//@ extern (*sync.RWMutex).RLock
+//@   pure
+//@ extern (*sync.RWMutex).RUnlock
+//@   pure
+//@ extern (*sync.RWMutex).Lock
+//@   pure
+//@ extern (*sync.RWMutex).Unlock
+//@   pure
+
+// ---------------------------------------------------------------------------------------
+// Page cache: a map from page number to node object.
+
+//@ func (*db.btreeCache).get
+//@   props C08
+//@   pure
+//@   requires t != nil && t.elem != nil
+//@   ensures [hit] has(t.elem, p) ==> result == t.elem[p]
+//@   ensures [miss] !has(t.elem, p) ==> result == nil
+
+// set: the entry for p becomes btree; every other entry is either kept or dropped (the cache is
+// emptied when full), never altered.
+//@ func (*db.btreeCache).set
+//@   props C08
+//@   modifies db.btreeCache.elem MH:bv64 MV:bv64_Iface ML:bv64 alloc
+//@   requires t != nil && t.elem != nil
+//@   ensures [set] t.elem != nil && has(t.elem, p) && t.elem[p] == btree
+//@   ensures [others] forall q int :: q != p && has(t.elem, q) ==> old(has(t.elem, q)) && t.elem[q] == old(t.elem[q])
+
+//@ func (*db.btreeCache).clear
+//@   props C08
+//@   modifies db.btreeCache.elem MH:bv64 MV:bv64_Iface ML:bv64 alloc
+//@   requires t != nil
+//@   ensures [empty] t.elem != nil && (forall q int :: !has(t.elem, q))
+
+// ---------------------------------------------------------------------------------------
+// Transactions.
+
+// RLock marks the handle dirty: the next access re-reads and re-validates the header.
+//@ func (*db.Database).RLock
+//@   props C06 C08 C15
+//@   modifies db.Database.dirty lk_shared lk_pending cc_now db.filePager.readLock alloc
+//@   requires db != nil
+//@   ensures [dirty] db.dirty
+//@   ensures [lock] (err == nil ==> lk_shared && !lk_pending) && (err != nil ==> lk_shared == old(lk_shared) && !lk_pending) && (peer_state >= 3 ==> err != nil)
+
+//@ func (*db.Database).RUnlock
+//@   props C06
+//@   modifies lk_shared db.filePager.readLock
+//@   requires db != nil
+//@   ensures [unlock] err == nil ==> !lk_shared
+
+// validJournal: true iff the journal file is hot in SQLite's sense (see the journal contracts).
+//@ func db.validJournal
+//@   props C09
+//@   pure
+//@   trusted file I/O model pending (os.Open / File.Read)
+
+// CACHE_OK(db): every cached node is the decode of its page as of the change counter in the handle's header.
+//@ macro CACHE_OK(d) = (forall q int :: has(d.btreeCache.elem, q) ==> repr(d.btreeCache.elem[q], q, d.header.ChangeCounter))
+
+// resolveDirty: when dirty, re-read page 1, validate it (parseHeader must accept these very bytes),
+// adopt its page size and counters, drop the page cache when the change counter moved and the schema
+// cache when the schema cookie moved.
+//@ func (*db.Database).resolveDirty
+//@   props C08 C15 C09
+//@   opt no-type-invariant=db.Database
+//@   modifies * -M:S_db_KeyCol hdr_valid
+//@   requires db != nil && db.l != nil && db.btreeCache != nil && db.btreeCache.elem != nil
+//@   requires db.header != nil ==> CACHE_OK(db) && legal_ps(db.header.PageSize)
+//@   requires db.header == nil ==> db.dirty && (forall q int :: !has(db.btreeCache.elem, q))
+//@   requires !db.dirty ==> db.header.ChangeCounter == cc_now
+//@   ghost-entry hdr_valid = false
+//@   ensures [clean] err == nil ==> !db.dirty && db.header != nil && db.header.ChangeCounter == cc_now
+//@   ensures [validated] err == nil && old(db.dirty) ==> hdr_valid
+//@   ensures [current] err == nil && old(db.dirty) ==> db.header.ChangeCounter == cc_now && legal_ps(db.header.PageSize)
+//@   ensures [untouched] err == nil && !old(db.dirty) ==> db.header == old(db.header)
+//@   ensures [cache0] err == nil ==> db.btreeCache != nil && db.btreeCache.elem != nil
+//@   ensures [cache] err == nil ==> db.btreeCache != nil && db.btreeCache.elem != nil && CACHE_OK(db)
+//@   ensures [schema0] err == nil && old(db.dirty) && old(db.header) != nil ==> old(db.header) != db.header
+//@   ensures [schema] err == nil && old(db.dirty) && old(db.header) != nil && old(db.header.SchemaCookie) != db.header.SchemaCookie ==> db.objectCache == nil
+
+//@ func (*db.Database).openPage
+//@   props C08 C15 C01 C02 C12
+//@   modifies * -M:S_db_KeyCol hdr_valid
+//@   requires db != nil
+//@   ensures [clean] err == nil ==> !db.dirty && db.header != nil && db.header.ChangeCounter == cc_now
+//@   ensures [current] err == nil ==> r0 != nil && repr(r0, page, db.header.ChangeCounter)
+//@   ensures [cache] err == nil ==> db.btreeCache != nil && db.btreeCache.elem != nil && CACHE_OK(db)
